@@ -372,6 +372,11 @@ func (b *Broker) handleConn(conn net.Conn) {
 	err = connack.Write(conn)
 	if err != nil {
 		logger.SpanErrorf(nil, "send connack to client %s failed: %s", connect.ClientIdentifier, err)
+		// the client is already registered in b.clients and readLoop (whose
+		// exit path removes it) will never run: release its slot here, or it
+		// counts against MaxAllowedConnection forever.
+		client.closeAndDelSession()
+		b.removeClient(cid)
 		return
 	}
 
